@@ -4,7 +4,7 @@
    verbatim — and stops where the specification's remaining text starts.                   *)
 From Coq Require Import NArith ZArith List Bool Lia ZifyBool ZifyNat ZifyN.
 From ST Require Import Base.Outcome Base.Units Fmt.Strtol Fmt.StrtolProofs Fmt.ShiftProofs Fmt.Parser
-  Fmt.ParserProofs Fmt.Render Fmt.RenderSpec Fmt.ScanSpec Fmt.Sinks Fmt.SinksProofs Fmt.RenderProofs Fmt.ParseSpecProofs.
+  Fmt.ParserProofs Fmt.Render Fmt.RenderSpec Fmt.Sinks Fmt.SinksProofs Fmt.RenderProofs Fmt.ParseSpecProofs.
 Import ListNotations.
 Local Open Scope N_scope.
 
@@ -174,10 +174,11 @@ Proof.
   destruct (skipn n' fmt) as [|c t] eqn:El.
   - left. split; [reflexivity|].
     replace (tr ++ tr2 ++ []) with ((tr ++ tr2 ++ [] ++ []) ++ []) by (rewrite !app_nil_r; reflexivity).
-    eapply returns_bind; [|reflexivity].
-    eapply returns_bind; [exact Hr|]. cbv beta iota.
-    eapply returns_bind; [exact Hr2|].
-    eapply returns_bind; [apply returns_lift; exact Hat|]. reflexivity.
+    eapply returns_bind.
+    { eapply returns_bind; [exact Hr|]. cbv beta iota.
+      eapply returns_bind; [exact Hr2|].
+      eapply returns_bind; [apply returns_lift; exact Hat|]. reflexivity. }
+    reflexivity.
   - (* the loop only stops on the terminator or on the '{' of a field *)
     destruct Hfp as [m1' [c' [Hout [_ [Hat' Hc']]]]].
     assert (Hsame : outW (fetch_prefix a m) = Ok (n', c)).
@@ -188,10 +189,11 @@ Proof.
     destruct Hc' as [Hc'|Hc']; [congruence|]. subst c.
     right. exists t. split; [reflexivity|].
     replace (tr ++ tr2 ++ []) with ((tr ++ tr2 ++ [] ++ []) ++ []) by (rewrite !app_nil_r; reflexivity).
-    eapply returns_bind; [|reflexivity].
-    eapply returns_bind; [exact Hr|]. cbv beta iota.
-    eapply returns_bind; [exact Hr2|].
-    eapply returns_bind; [apply returns_lift; exact Hat|]. reflexivity.
+    eapply returns_bind.
+    { eapply returns_bind; [exact Hr|]. cbv beta iota.
+      eapply returns_bind; [exact Hr2|].
+      eapply returns_bind; [apply returns_lift; exact Hat|]. reflexivity. }
+    reflexivity.
 Qed.
 
 End Fmt.
